@@ -424,15 +424,19 @@ Qed.
 
 (** ** The decorated method [quantify] *)
 
-(** with the hypothesis on the level set stated in the reordering context *)
-Lemma quantify_names_spec_ctx s u qvars fa q r s' :
-  Inv s → valid s u → last_len s = None → max_nodes s = None →
+(** with the hypothesis on the level set stated in the reordering context;
+    for every value of [max_nodes]: the error clause is [benign] *)
+Lemma quantify_names_any_ctx s u qvars fa q r s' :
+  Inv s → valid s u → last_len s = None →
   map_to_level_set true qvars (s <| rctx := true |>) = (Ok q, s <| rctx := true |>) →
   quantify_names u qvars fa s = (r, s') →
-  ∃ x, r = Ok x ∧ Inv s' ∧ extends s s' ∧ valid s' x ∧
-       ∀ a, D s' x a = true ↔ qsem s fa q u a.
+  match r with
+  | Ok x => Inv s' ∧ extends s s' ∧ valid s' x ∧
+            ∀ a, D s' x a = true ↔ qsem s fa q u a
+  | Err e => benign s e
+  end.
 Proof.
-  intros HI Hu Hoff Hmx Hq Hrun. unfold quantify_names in Hrun.
+  intros HI Hu Hoff Hq Hrun. unfold quantify_names in Hrun.
   apply try_to_reorder_inert in Hrun as (r1&s1&Hrun&Hcase).
   set (s0 := s <| rctx := true |>) in *.
   rewrite (bind_ok _ _ _ _ _ Hq) in Hrun. cbn [bind get] in Hrun.
@@ -444,13 +448,27 @@ Proof.
     [|done|done|by left|apply ord_ok_sorted_levels|apply cache_ok_empty|lia].
   assert (Hll : last_len s0 = None) by done.
   destruct rr as [[x c]|e]; cycle 1.
-  { by destruct (benign_never s0 e Hll Hmx). }
+  { rewrite (bind_err _ _ _ _ _ Er) in Hrun. injection Hrun as <- <-.
+    destruct (benign_off s0 e Hll Hr) as [-> Hb].
+    destruct Hcase as [[[=] _]|[-> ->]]. right. by split. }
   rewrite (bind_ok _ _ _ _ _ Er) in Hrun. cbn [ret fst] in Hrun.
   injection Hrun as <- <-.
   destruct Hcase as [[[=] _]|[-> ->]].
   destruct Hr as (Hxv&_&_&HxD).
-  exists x. split; [done|split; [by apply Inv_rctx|split; [done|split; [done|]]]].
+  split; [by apply Inv_rctx|split; [done|split; [done|]]].
   intros a. rewrite D_rctx, HxD. apply qsem_rctx.
+Qed.
+
+Lemma quantify_names_spec_ctx s u qvars fa q r s' :
+  Inv s → valid s u → last_len s = None → max_nodes s = None →
+  map_to_level_set true qvars (s <| rctx := true |>) = (Ok q, s <| rctx := true |>) →
+  quantify_names u qvars fa s = (r, s') →
+  ∃ x, r = Ok x ∧ Inv s' ∧ extends s s' ∧ valid s' x ∧
+       ∀ a, D s' x a = true ↔ qsem s fa q u a.
+Proof.
+  intros HI Hu Hoff Hmx Hq Hrun.
+  pose proof (quantify_names_any_ctx s u qvars fa q r s' HI Hu Hoff Hq Hrun) as H.
+  destruct r as [x|e]; [by exists x|]. by destruct (benign_never s e Hoff Hmx).
 Qed.
 
 (** keys given as levels: the prelude (read-only) turns them into the names
@@ -499,42 +517,76 @@ Proof.
   by rewrite map_to_level_set_rctx, Hq.
 Qed.
 
+(** the same for every value of [max_nodes] *)
+Theorem quantify_any_ctx s u byname qvars fa q r s' :
+  Inv s → valid s u → last_len s = None →
+  map_to_level_set byname qvars (s <| rctx := true |>) = (Ok q, s <| rctx := true |>) →
+  quantify u byname qvars fa s = (r, s') →
+  match r with
+  | Ok x => Inv s' ∧ extends s s' ∧ valid s' x ∧
+            ∀ a, D s' x a = true ↔ qsem s fa q u a
+  | Err e => benign s e
+  end.
+Proof.
+  destruct byname; [apply quantify_names_any_ctx|].
+  intros HI Hu Hoff Hq Hrun.
+  destruct (quantify_levels_run s u qvars fa q (s <| rctx := true |>)) as (_&_&Hd&E);
+    [by rewrite Hq|done|].
+  rewrite E in Hrun.
+  apply (quantify_names_any_ctx s u (names_at s q) fa q r s'); try done.
+  by apply level_set_roundtrip.
+Qed.
+
+Theorem quantify_any s u byname qvars fa q r s' :
+  Inv s → valid s u → last_len s = None →
+  fst (map_to_level_set byname qvars s) = Ok q →
+  quantify u byname qvars fa s = (r, s') →
+  match r with
+  | Ok x => Inv s' ∧ extends s s' ∧ valid s' x ∧
+            ∀ a, D s' x a = true ↔ qsem s fa q u a
+  | Err e => benign s e
+  end.
+Proof.
+  intros HI Hu Hoff Hq. apply quantify_any_ctx; try done.
+  by rewrite map_to_level_set_rctx, Hq.
+Qed.
+
 (** the result does not depend on the quantified levels *)
 Corollary quantify_indep s u byname qvars fa q x s' a a' :
-  Inv s → valid s u → last_len s = None → max_nodes s = None →
+  Inv s → valid s u → last_len s = None →
   fst (map_to_level_set byname qvars s) = Ok q →
   quantify u byname qvars fa s = (Ok x, s') →
   agree_off q a a' → D s' x a = D s' x a'.
 Proof.
-  intros HI Hu Hoff Hmx Hq Hrun Ha.
-  destruct (quantify_spec _ _ _ _ _ _ _ _ HI Hu Hoff Hmx Hq Hrun) as (x'&[= <-]&_&_&_&HD).
+  intros HI Hu Hoff Hq Hrun Ha.
+  destruct (quantify_any _ _ _ _ _ _ _ _ HI Hu Hoff Hq Hrun) as (_&_&_&HD).
   apply bool_eq_iff. rewrite !HD. by apply qsem_agree.
 Qed.
 
 (** quantifying over levels the function does not depend on (in particular
     over no level at all) returns the very same reference *)
 Corollary quantify_noop s u byname qvars fa q x s' :
-  Inv s → valid s u → last_len s = None → max_nodes s = None →
+  Inv s → valid s u → last_len s = None →
   fst (map_to_level_set byname qvars s) = Ok q →
   quantify u byname qvars fa s = (Ok x, s') →
   (∀ a b, agree_off q a b → D s u a = D s u b) →
   x = u.
 Proof.
-  intros HI Hu Hoff Hmx Hq Hrun Hind.
-  destruct (quantify_spec _ _ _ _ _ _ _ _ HI Hu Hoff Hmx Hq Hrun) as (x'&[= <-]&HI'&He&Hx&HD).
+  intros HI Hu Hoff Hq Hrun Hind.
+  destruct (quantify_any _ _ _ _ _ _ _ _ HI Hu Hoff Hq Hrun) as (HI'&He&Hx&HD).
   apply (canonical_levels s' HI'); [done|by apply (valid_extends s s')|].
   intros a. apply bool_eq_iff. rewrite HD, (D_extends s s' u) by done.
   apply qsem_const. intros b Hb. symmetry. by apply Hind.
 Qed.
 
 Corollary quantify_noop_empty s u byname qvars fa x s' :
-  Inv s → valid s u → last_len s = None → max_nodes s = None →
+  Inv s → valid s u → last_len s = None →
   fst (map_to_level_set byname qvars s) = Ok ∅ →
   quantify u byname qvars fa s = (Ok x, s') →
   x = u.
 Proof.
-  intros HI Hu Hoff Hmx Hq Hrun.
-  apply (quantify_noop s u byname qvars fa ∅ x s' HI Hu Hoff Hmx Hq Hrun).
+  intros HI Hu Hoff Hq Hrun.
+  apply (quantify_noop s u byname qvars fa ∅ x s' HI Hu Hoff Hq Hrun).
   intros a b Hab. apply (D_indep s HI); [done|]. intros j _.
   by apply (proj1 (agree_off_empty a b)).
 Qed.
